@@ -39,6 +39,10 @@ def make_duplicate_harness(cases):
         reset_all()
         cno = e.choice(len(cases), "tree")
         recipe, shared = cases[cno]
+        if shared is False and e.flag("last_leaf_falsy"):
+            from models.shapes import falsify
+
+            recipe = falsify(recipe)
         twins = e.flag("twins_registered")
 
         def construct():
